@@ -1,6 +1,6 @@
 """C01 — Every submitted task runs exactly once (structural necessary conditions)."""
 from rules.common import start
-from rules import queues, pool
+from rules import queues, pool, hookrules
 from rules.C03 import rmw_rule
 
 
@@ -24,6 +24,9 @@ def run(tier):
     # stranding clauses shared with C06 / C11: the shared queue is visited periodically; workers can always be created
     queues.tick_rule(run, f, "C01-SHARED-VISITED")
     pool.running_rule(run, f, "C01-WORKER-INC", "C01-WORKER-DEC", "C01-WORKER-RMW")
+    # a task waiting in any queue this pool can take from gets a worker: try_grow refuses only when local, sibling and
+    # shared queues are all empty, and a blocked worker is replaced (otherwise the task is stranded while the loop runs)
+    hookrules.grow_rule(run, f, "C01-WORKER-FOR-WAITING-TASK")
     return run.finish()
 
 
